@@ -550,3 +550,186 @@ Proof.
 Qed.
 
 End Ext.
+
+(* ---------------- PES_header_data_length ---------------- *)
+
+(* the regenerated calcPESOptionalHeaderDataLength (uint8 arithmetic) is the sum of the sizes of the parts present *)
+Lemma calc_len_eq h : wf_opt h -> calcPESOptionalHeaderDataLength h = ref_header_data_length h.
+Proof.
+  intros W. pose proof (wf_e2 h W) as P4. pose proof (ind_cases h W) as I.
+  unfold calcPESOptionalHeaderDataLength, ref_header_data_length,
+    C_PTSDTSIndicatorOnlyPTS, C_PTSDTSIndicatorBothPresent, C_ptsOrDTSByteLength, C_escrLength, C_dsmTrickModeLength.
+  set (n := Z.of_nat (length (PESOptionalHeader_Extension2Data h))).
+  destruct (PESOptionalHeader_HasExtension2 h).
+  - assert (Hn : 0 <= n <= 127) by (subst n; lia). clearbody n. clear P4.
+    rewrite (Z.mod_small n 256) by lia. rewrite (Z.mod_small (1 + n) 256) by lia.
+    set (e := 1 + n). assert (He : 1 <= e <= 128) by (subst e; lia). clearbody e. clear Hn n.
+    destruct I as [E|[E|[E|E]]]; rewrite E; cbn [Z.eqb Pos.eqb];
+    destruct (PESOptionalHeader_HasESCR h), (PESOptionalHeader_HasESRate h), (PESOptionalHeader_HasDSMTrickMode h),
+      (PESOptionalHeader_HasAdditionalCopyInfo h), (PESOptionalHeader_HasExtension h); try reflexivity;
+    destruct (PESOptionalHeader_HasPrivateData h), (PESOptionalHeader_HasProgramPacketSequenceCounter h),
+      (PESOptionalHeader_HasPSTDBuffer h);
+    match goal with
+    | |- (?X + e) mod 256 = _ => let x := eval vm_compute in X in change X with x
+    end; rewrite Z.mod_small by lia; lia.
+  - destruct I as [E|[E|[E|E]]]; rewrite E; cbn [Z.eqb Pos.eqb];
+    destruct (PESOptionalHeader_HasESCR h), (PESOptionalHeader_HasESRate h), (PESOptionalHeader_HasDSMTrickMode h),
+      (PESOptionalHeader_HasAdditionalCopyInfo h), (PESOptionalHeader_HasExtension h); try reflexivity;
+    destruct (PESOptionalHeader_HasPrivateData h), (PESOptionalHeader_HasProgramPacketSequenceCounter h),
+      (PESOptionalHeader_HasPSTDBuffer h); reflexivity.
+Qed.
+
+Lemma ref_len_range h : wf_opt h -> 0 <= ref_header_data_length h <= 170.
+Proof.
+  intros W. pose proof (wf_e2 h W) as P4. pose proof (ind_cases h W) as I. unfold ref_header_data_length.
+  set (n := Z.of_nat (length (PESOptionalHeader_Extension2Data h))).
+  assert (Hn : PESOptionalHeader_HasExtension2 h = true -> 0 <= n <= 127).
+  { intros E. rewrite E in P4. subst n. lia. }
+  clearbody n.
+  destruct I as [E|[E|[E|E]]]; rewrite E; cbn [Z.eqb Pos.eqb];
+  destruct (PESOptionalHeader_HasESCR h), (PESOptionalHeader_HasESRate h), (PESOptionalHeader_HasDSMTrickMode h),
+    (PESOptionalHeader_HasAdditionalCopyInfo h), (PESOptionalHeader_HasExtension h); try lia;
+  destruct (PESOptionalHeader_HasPrivateData h), (PESOptionalHeader_HasProgramPacketSequenceCounter h),
+    (PESOptionalHeader_HasPSTDBuffer h), (PESOptionalHeader_HasExtension2 h); try specialize (Hn eq_refl); lia.
+Qed.
+
+Lemma wu8_bytes v : bytes_of_items [wu8 v] = [v mod 256].
+Proof.
+  rewrite chunks_concat by items_ok. unfold items_bits, wu8. cbn [flat_map item_bits]. rewrite app_nil_r.
+  apply bytes_of_bits_bits_of_8.
+Qed.
+Lemma wu8_aligned v : aligned [wu8 v] 1.
+Proof. split; [reflexivity | items_ok]. Qed.
+
+(* ---------------- the optional header as a whole ---------------- *)
+
+Section Opt.
+Context (h : PESOptionalHeader) (W : wf_opt h).
+
+Definition fixed0 : list witem :=
+  [WBits 2 2; WBits 2 (PESOptionalHeader_ScramblingControl h); WBool (PESOptionalHeader_Priority h);
+   WBool (PESOptionalHeader_DataAlignmentIndicator h); WBool (PESOptionalHeader_IsCopyrighted h);
+   WBool (PESOptionalHeader_IsOriginal h)].
+Definition fixed1 : list witem :=
+  [WBits 2 (PESOptionalHeader_PTSDTSIndicator h); WBool (PESOptionalHeader_HasESCR h); WBool (PESOptionalHeader_HasESRate h);
+   WBool (PESOptionalHeader_HasDSMTrickMode h); WBool (PESOptionalHeader_HasAdditionalCopyInfo h); WBool false;
+   WBool (PESOptionalHeader_HasExtension h)].
+Definition fixed2 : list witem := [wu8 (calcPESOptionalHeaderDataLength h)].
+
+Definition opt_items : list witem :=
+  fixed0 ++ fixed1 ++ fixed2 ++ ts_items h ++ escr_items h ++ fst (enc_es_rate h) ++ dsm_items h ++
+  fst (enc_aci h) ++ fst (enc_pes_extension h).
+Definition opt_len : Z :=
+  3 + ts_len h + escr_len h + snd (enc_es_rate h) + dsm_len h + snd (enc_aci h) + snd (enc_pes_extension h).
+
+Lemma enc_opt_ok : enc_pes_optional_header h = Ok (opt_items, opt_len).
+Proof.
+  unfold enc_pes_optional_header.
+  rewrite (enc_ptsdts_ok h W); cbn [res_bind]. rewrite (enc_escr_opt_ok h W); cbn [res_bind].
+  rewrite (surjective_pairing (enc_es_rate h)). rewrite (enc_dsm_opt_ok h W); cbn [res_bind].
+  rewrite (surjective_pairing (enc_aci h)). rewrite (surjective_pairing (enc_pes_extension h)).
+  reflexivity.
+Qed.
+
+Lemma data_len_eq : opt_len = 3 + ref_header_data_length h.
+Proof.
+  unfold opt_len, ref_header_data_length. rewrite (ext_len_eq h).
+  unfold ts_len, escr_len, enc_es_rate, dsm_len, enc_aci, pd_len, psc_len, pstd_len, e2_len, e2n.
+  destruct (PESOptionalHeader_HasESCR h), (PESOptionalHeader_HasESRate h), (PESOptionalHeader_HasDSMTrickMode h),
+    (PESOptionalHeader_HasAdditionalCopyInfo h); cbn [fst snd]; lia.
+Qed.
+
+Lemma fixed0_aligned : aligned fixed0 1. Proof. split; [reflexivity | items_ok]. Qed.
+Lemma fixed1_aligned : aligned fixed1 1. Proof. split; [reflexivity | items_ok]. Qed.
+
+Lemma part_lens_nonneg' : 0 <= ts_len h /\ 0 <= escr_len h /\ 0 <= snd (enc_es_rate h) /\ 0 <= dsm_len h /\
+  0 <= snd (enc_aci h) /\ 0 <= snd (enc_pes_extension h).
+Proof.
+  destruct (part_lens_nonneg h) as (N1 & N2 & N3 & N4). rewrite (ext_len_eq h).
+  unfold ts_len, escr_len, enc_es_rate, dsm_len, enc_aci.
+  destruct (ind_cases h W) as [E|[E|[E|E]]]; rewrite E; cbn [Z.eqb Pos.eqb];
+  destruct (PESOptionalHeader_HasESCR h), (PESOptionalHeader_HasESRate h), (PESOptionalHeader_HasDSMTrickMode h),
+    (PESOptionalHeader_HasAdditionalCopyInfo h), (PESOptionalHeader_HasExtension h); cbn [fst snd]; lia.
+Qed.
+
+Lemma opt_aligned : aligned opt_items (Z.to_nat opt_len).
+Proof.
+  destruct part_lens_nonneg' as (N1 & N2 & N3 & N4 & N5 & N6). unfold opt_items, opt_len.
+  replace (Z.to_nat (3 + ts_len h + escr_len h + snd (enc_es_rate h) + dsm_len h + snd (enc_aci h) + snd (enc_pes_extension h)))
+    with (1 + (1 + (1 + (Z.to_nat (ts_len h) + (Z.to_nat (escr_len h) + (Z.to_nat (snd (enc_es_rate h)) +
+          (Z.to_nat (dsm_len h) + (Z.to_nat (snd (enc_aci h)) + Z.to_nat (snd (enc_pes_extension h))))))))))%nat by lia.
+  repeat apply aligned_app.
+  - apply fixed0_aligned.
+  - apply fixed1_aligned.
+  - apply wu8_aligned.
+  - apply (ts_aligned h W).
+  - apply (escr_aligned h).
+  - apply (es_rate_aligned h).
+  - apply (dsm_aligned h).
+  - apply (aci_aligned h).
+  - apply (ext_aligned h W).
+Qed.
+
+End Opt.
+
+Section Opt2.
+Context (h : PESOptionalHeader) (W : wf_opt h).
+
+Lemma parse_opt_located bs k : located bs k (bytes_of_items (opt_items h)) ->
+  parse_pes_optional_header (mk_iter bs k) =
+  Ok ((observed_opt h, k + 3 + ref_header_data_length h), mk_iter bs (k + opt_len h)).
+Proof.
+  intros Hl.
+  destruct (part_lens_nonneg' h W) as (N1 & N2 & N3 & N4 & N5 & N6).
+  pose proof (ts_aligned h W) as A1. pose proof (escr_aligned h) as A2. pose proof (es_rate_aligned h) as A3.
+  pose proof (dsm_aligned h) as A4. pose proof (aci_aligned h) as A5. pose proof (ext_aligned h W) as A6.
+  pose proof (fixed1_aligned h) as B1. pose proof (wu8_aligned (calcPESOptionalHeaderDataLength h)) as B2.
+  unfold opt_items in Hl.
+  apply (located_items bs k _ _ 1 (fixed0_aligned h)) in Hl;
+    [|repeat apply items_bytes_ok_app; [apply B1|apply B2|apply A1|apply A2|apply A3|apply A4|apply A5|apply A6]].
+  destruct Hl as [L0 Hl].
+  apply (located_items bs _ _ _ 1 B1) in Hl;
+    [|repeat apply items_bytes_ok_app; [apply B2|apply A1|apply A2|apply A3|apply A4|apply A5|apply A6]].
+  destruct Hl as [L1 Hl].
+  apply (located_items bs _ _ _ 1 B2) in Hl;
+    [|repeat apply items_bytes_ok_app; [apply A1|apply A2|apply A3|apply A4|apply A5|apply A6]].
+  destruct Hl as [L2 Hl].
+  apply (located_items bs _ _ _ _ A1) in Hl; [|repeat apply items_bytes_ok_app; [apply A2|apply A3|apply A4|apply A5|apply A6]].
+  destruct Hl as [P1 Hl].
+  apply (located_items bs _ _ _ _ A2) in Hl; [|repeat apply items_bytes_ok_app; [apply A3|apply A4|apply A5|apply A6]].
+  destruct Hl as [P2 Hl].
+  apply (located_items bs _ _ _ _ A3) in Hl; [|repeat apply items_bytes_ok_app; [apply A4|apply A5|apply A6]].
+  destruct Hl as [P3 Hl].
+  apply (located_items bs _ _ _ _ A4) in Hl; [|repeat apply items_bytes_ok_app; [apply A5|apply A6]].
+  destruct Hl as [P4 Hl].
+  apply (located_items bs _ _ _ _ A5) in Hl; [|apply A6].
+  destruct Hl as [P5 P6].
+  rewrite !Z2Nat.id in * by lia.
+  destruct (aligned_one _ (fixed0_aligned h)) as (b0 & E0 & H0). rewrite E0 in L0.
+  destruct (aligned_one _ B1) as (b1 & E1 & H1). rewrite E1 in L1.
+  unfold fixed2 in L2. rewrite wu8_bytes in L2.
+  pose proof (ref_len_range h W) as R. rewrite (calc_len_eq h W) in L2. rewrite Z.mod_small in L2 by lia.
+  unfold parse_pes_optional_header.
+  erewrite ibind_ok by (apply (next_byte_located bs k b0 L0)).
+  erewrite ibind_ok by (apply (next_byte_located bs _ b1 L1)).
+  erewrite ibind_ok by (apply (next_byte_located bs _ _ L2)).
+  erewrite ibind_ok by reflexivity. cbn [ioff]. cbv zeta.
+  rewrite !bitb_one, !bitsf_one, H0, H1. unfold fixed0, fixed1. cbn [items_bits flat_map item_bits app].
+  pose proof (wf_sc h W) as S1. pose proof (wf_ind h W) as S2.
+  fld. change (Z.of_nat 1) with 1 in *.
+  erewrite ibind_ok by (apply (ts_piece h W bs _ P1)). cbv beta iota.
+  erewrite ibind_ok by (apply (escr_piece h W bs _ P2)).
+  erewrite ibind_ok by (apply (es_rate_piece h W bs _ P3)).
+  erewrite ibind_ok by (apply (dsm_piece h W bs _ P4)).
+  erewrite ibind_ok by (apply (aci_piece h W bs _ P5)).
+  unfold parse_crc. erewrite ibind_ok by reflexivity.
+  erewrite ibind_ok by (apply (ext_piece h W bs _ P6)).
+  unfold iret. f_equal. f_equal; [|unfold opt_len; f_equal; lia].
+  f_equal; [|lia].
+  unfold observed_opt, ext_of. cbn [pe_hasPD pe_hasPack pe_hasPSC pe_hasPSTD pe_hasExt2 pe_pd pe_pack pe_psc pe_mpeg pe_osl
+    pe_scale pe_size pe_e2len pe_e2data].
+  destruct (wf_crc h W) as [C1 C2]. destruct (wf_pack h W) as [K1 K2]. rewrite C1, C2, K1, K2, (wf_of h W).
+  reflexivity.
+Qed.
+
+End Opt2.
